@@ -435,6 +435,9 @@ func ruleLockstep(c *Ctx, r *Report) {
 		if obj == nil || paramIndex(f, obj) >= 0 {
 			return true
 		}
+		if oneToOneDef(f, obj) != nil {
+			return true // assigned once: a hoisted sub-expression, not a cursor
+		}
 		role := ""
 		switch namedTypeOf(obj.Type()) {
 		case P("util") + ".NodeInfo":
@@ -448,6 +451,12 @@ func ruleLockstep(c *Ctx, r *Report) {
 		}
 		shape := "other"
 		rhs := ast.Unparen(as.Rhs[0])
+		// a hoisted local (parent := root.Parent) stands for its definition.
+		if id, ok := rhs.(*ast.Ident); ok && paramIndex(f, info.ObjectOf(id)) < 0 {
+			if d := oneToOneDef(f, info.ObjectOf(id)); d != nil {
+				rhs = ast.Unparen(d)
+			}
+		}
 		switch x := rhs.(type) {
 		case *ast.Ident:
 			if paramIndex(f, info.ObjectOf(x)) >= 0 {
